@@ -5,3 +5,5 @@ val add : nat -> nat -> nat
 val eqb : nat -> nat -> bool
 
 val leb : nat -> nat -> bool
+
+val ltb : nat -> nat -> bool
